@@ -71,6 +71,53 @@ impl Op {
         }
     }
 
+    /// inverse of `token`
+    pub fn from_token(t: &str) -> Option<Op> {
+        let w: Vec<&str> = t.split(' ').collect();
+        let oo = |x: &str| if x == "~" { None } else { Some(unhexs(x)) };
+        Some(match w[0] {
+            "set_fragment" => Op::SetFragment(oo(w[1])),
+            "set_query" => Op::SetQuery(oo(w[1])),
+            "set_path" => Op::SetPath(unhexs(w[1])),
+            "set_port" => Op::SetPort(if w[1] == "~" { None } else { Some(u16::from_str_radix(w[1], 16).ok()?) }),
+            "set_host" => Op::SetHost(oo(w[1])),
+            "set_ip_host" => {
+                let (tag, arg) = w[1].split_at(1);
+                if tag == "4" {
+                    Op::SetIpHost(IpAddr::V4(Ipv4Addr::from(u32::from_str_radix(arg, 16).ok()?)))
+                } else {
+                    let p = unhexl(arg);
+                    Op::SetIpHost(IpAddr::V6(Ipv6Addr::new(
+                        p[0] as u16, p[1] as u16, p[2] as u16, p[3] as u16, p[4] as u16, p[5] as u16, p[6] as u16, p[7] as u16,
+                    )))
+                }
+            }
+            "set_password" => Op::SetPassword(oo(w[1])),
+            "set_username" => Op::SetUsername(unhexs(w[1])),
+            "set_scheme" => Op::SetScheme(unhexs(w[1])),
+            "psm" => Op::Psm(
+                w[1..]
+                    .iter()
+                    .map(|o| {
+                        let (tag, arg) = o.split_at(1);
+                        match tag {
+                            "c" => PsmOp::Clear,
+                            "e" => PsmOp::PopIfEmpty,
+                            "p" => PsmOp::Pop,
+                            "u" => PsmOp::Push(unhexs(arg)),
+                            _ => PsmOp::Extend(if arg.is_empty() { vec![] } else { arg.split(';').map(unhexs).collect() }),
+                        }
+                    })
+                    .collect(),
+            ),
+            n if n.starts_with("q_set_") => {
+                let name = QUIRK_SETTERS.iter().find(|q| **q == &n[6..])?;
+                Op::Quirk(name, unhexs(w[1]))
+            }
+            _ => return None,
+        })
+    }
+
     pub fn kind(&self) -> String {
         match self {
             Op::Quirk(n, _) => format!("q_{}", n),
